@@ -379,7 +379,7 @@ pub fn build(spec: &VoiceSpec, pool: &QuestionPool) -> Vec<u8> {
                     step * (i as f64 - 0.5) + r.uniform(-0.2, 0.2) * step
                 }
             }),
-            "LF0" => Box::new(move |r: &mut Rng, i: usize| if i == 0 { r.uniform(4.4, 5.4) } else { r.uniform(-0.02, 0.02) }),
+            "LF0" => Box::new(move |r: &mut Rng, i: usize| if i == 0 { if r.chance(0.15) { r.uniform(3.2, 4.0) } else { r.uniform(4.2, 5.6) } } else { r.uniform(-0.02, 0.02) }),
             _ => Box::new(move |r: &mut Rng, i: usize| if i == lpf_len / 2 { r.uniform(0.8, 1.0) } else { r.uniform(-0.05, 0.05) }),
         };
         let blob = model(&mut r, pool, &n.to_lowercase(), &states, len * nwin, is_msd(n), &*mean, (0.02, 0.6));
@@ -419,6 +419,11 @@ pub fn build(spec: &VoiceSpec, pool: &QuestionPool) -> Vec<u8> {
         let _ = writeln!(h, "USE_GV[{}]:{}", n, use_gv(n) as u8);
     }
     let mut opts = vec![format!("ALPHA={}", m.alpha_milli as f64 / 1000.0)];
+    if m.mcp_len % 3 == 0 {
+        // a second, distinct ALPHA entry first (the last one wins when the engine reads them in order):
+        // gives option lists of length >= 2 whose order matters
+        opts.insert(0, "ALPHA=0.1".to_string());
+    }
     if m.stage > 0 {
         opts.insert(0, format!("GAMMA={}", m.stage));
         opts.push(format!("LN_GAIN={}", m.ln_gain as u8));
